@@ -25,6 +25,7 @@ import (
 	"encoding/hex"
 	"io"
 	"net/url"
+	"os"
 	"path/filepath"
 	"strings"
 
@@ -120,6 +121,12 @@ func NewController(workingDirectory riofs.FS, addr api.WarehouseLocation) (*Cont
 	// ping the remote and see if it responds
 	_, err = whCtrl.lsRemote()
 	if err != nil {
+		if st, err2 := os.Stat(filepath.Join(sanitizedAddr, "objects")); whCtrl.protocol == protocolFile && err2 == nil && st.IsDir() {
+			// A local repository is read from its object store, whatever its refs say: one with a detached HEAD
+			//  or with no branch at all fails the ls-remote ping and still holds every commit it ever held.
+			err = whCtrl.setCacheStorage()
+			return whCtrl, err
+		}
 		if whCtrl.protocol == protocolFile {
 			// Unlike remote repositories, an error from a local repository pretty much means it doesn't exist
 			return nil, ErrorDetailed(rio.ErrWarehouseUnavailable, "warehouse does not exist", map[string]string{
